@@ -37,6 +37,8 @@ GSender ==
      \/ EndMessage /\ Log(SRec("EndMessage", "", 0))
      \/ MsgFlush   /\ Log(SRec("MsgFlush", "", 0))
      \/ MsgFinish  /\ Log(SRec("MsgFinish", "", 0))
+     \/ /\ Cardinality({i \in DOMAIN hist : hist[i].a = "Abandon"}) < MaxAbandon
+        /\ Abandon /\ Log([a |-> "Abandon", kind |-> "", n |-> sbuf, ok |-> TRUE])
 
 GReceiver ==
   /\ UNCHANGED <<enc, sapi, rapi, phase, sndVars>>
@@ -64,8 +66,12 @@ GenSpec == GenInit /\ [][GenNext]_gvars
 
 Done == phase = "done"
 
+\* a configuration that allows abandoning a draft emits only behaviours that do so
+\* (the others are the business of the other configurations)
+Wanted == MaxAbandon > 0 => \E i \in DOMAIN hist : hist[i].a = "Abandon"
+
 EmitTrace ==
-  Done => PrintT(ToJson([scn |-> [enc |-> enc, sapi |-> sapi, rapi |-> rapi, hist |-> hist,
+  (Done /\ Wanted) => PrintT(ToJson([scn |-> [enc |-> enc, sapi |-> sapi, rapi |-> rapi, hist |-> hist,
                                   wire |-> wire, sent |-> sent, delivered |-> delivered,
                                   senderErr |-> senderErr, recvErr |-> recvErr]]))
 =============================================================================
